@@ -42,9 +42,11 @@ def handle : List String → String
     let nats (s : String) : Option (List Nat) := (s.splitOn ".").mapM (·.toNat?)
     match nats ts, (if sub == "-" then some none else (nats sub).map some), c.toInt?, r.toNat? with
     | some ts, some sub, some c, some r =>
-      match build (Gen.Facts.c14UpstreamPerEntry.getD false && Gen.Facts.c14EntryOptions.getD false) ts with
-      | none => "servers=unknown"   -- the source no longer builds one upstream per entry from its own options
-      | some u =>
+      match build (Gen.Facts.c14UpstreamPerEntry.getD false && Gen.Facts.c14EntryOptions.getD false) ts,
+            wrapOf (Gen.Facts.c14WrapperTransparent.getD false) with
+      | none, _ => "servers=unknown"   -- the source no longer builds one upstream per entry from its own options
+      | _, none => "servers=unknown"   -- the wrapper is no longer one unconditional call of its upstream
+      | some u, some _ =>
         let got := contacted (Gen.Facts.c14MaxConcurrent.getD 0) (inUse u sub) c r
         let sorted := got.foldl (fun acc x => insertSorted x acc) []
         s!"servers={".".intercalate (sorted.map toString)}"
